@@ -48,8 +48,18 @@ pub enum Sk {
     Stderr,
     StdoutLock,
     StderrLock,
+    /// a `File` on /dev/null: a character device that is not a terminal
+    NullFile,
+    MutNullFile,
+    BoxNullFile,
+    /// a `File` that is the write end of a pipe
+    PipeFile,
 }
-const ALL_SK: [Sk; 16] = [
+const ALL_SK: [Sk; 20] = [
+    Sk::NullFile,
+    Sk::MutNullFile,
+    Sk::BoxNullFile,
+    Sk::PipeFile,
     Sk::BoxPtyFile,
     Sk::BoxTmpFile,
     Sk::BoxStdout,
@@ -86,6 +96,10 @@ fn sk_name(s: Sk) -> &'static str {
         Sk::Stderr => "stderr",
         Sk::StdoutLock => "stdout_lock",
         Sk::StderrLock => "stderr_lock",
+        Sk::NullFile => "file_on_dev_null",
+        Sk::MutNullFile => "mut_file_on_dev_null",
+        Sk::BoxNullFile => "boxed_file_on_dev_null",
+        Sk::PipeFile => "file_on_pipe",
     }
 }
 fn sk_from(name: &str) -> Option<Sk> {
@@ -102,6 +116,8 @@ pub enum EOp {
     Clap(Option<String>),
     /// re-point fd 1 or 2 at the pty (true) or at a regular file (false)
     Retarget(u8, bool),
+    /// point fd 1 / fd 2 at /dev/null (a character device that is not a terminal)
+    RetargetNull(u8),
     Choice(Sk),
     AutoCurrent(Sk),
     NewAuto(Sk),
@@ -142,6 +158,8 @@ struct Model {
     vars: [Option<String>; 6],
     global: u8,
     fd_tty: [bool; 2],
+    /// what fd 1 / fd 2 point at: 0 the regular file, 1 the pty, 2 /dev/null
+    fd_kind: [u8; 2],
 }
 
 impl Model {
@@ -152,6 +170,7 @@ impl Model {
         match s {
             Sk::PtyFile | Sk::MutPtyFile | Sk::BoxPtyFile => true,
             Sk::TmpFile | Sk::MutTmpFile | Sk::Vec | Sk::BoxDyn | Sk::BoxDynSend | Sk::BoxDynSendSync | Sk::BoxTmpFile => false,
+            Sk::NullFile | Sk::MutNullFile | Sk::BoxNullFile | Sk::PipeFile => false,
             Sk::Stdout | Sk::StdoutLock | Sk::BoxStdout => self.fd_tty[0],
             Sk::Stderr | Sk::StderrLock | Sk::BoxStderr => self.fd_tty[1],
         }
@@ -219,6 +238,11 @@ struct Fds {
     pty_slave: File,
     disk: File,
     disk_path: String,
+    /// /dev/null opened for writing: a character device that is not a terminal
+    null: File,
+    /// a pipe (the read end is kept open and never read; nothing is ever written to it)
+    pipe_w: File,
+    _pipe_r: File,
 }
 
 fn open_pty() -> std::io::Result<(File, File)> {
@@ -248,10 +272,24 @@ impl Fds {
         let _ = std::fs::create_dir_all(&format!("{}/target/tmp", crate::report::verif_root()));
         let disk_path = format!("{}/target/tmp/envsim-{}.out", crate::report::verif_root(), std::process::id());
         let disk = File::create(&disk_path)?;
-        Ok(Fds { pty_master, pty_slave, disk, disk_path })
+        let null = std::fs::OpenOptions::new().write(true).open("/dev/null")?;
+        let mut p = [0 as libc::c_int; 2];
+        if unsafe { libc::pipe(p.as_mut_ptr()) } != 0 {
+            return Err(std::io::Error::last_os_error());
+        }
+        let (_pipe_r, pipe_w) = unsafe { (File::from_raw_fd(p[0]), File::from_raw_fd(p[1])) };
+        Ok(Fds { pty_master, pty_slave, disk, disk_path, null, pipe_w, _pipe_r })
     }
     fn retarget(&self, fd: u8, tty: bool) {
-        let src = if tty { self.pty_slave.as_raw_fd() } else { self.disk.as_raw_fd() };
+        self.retarget_kind(fd, tty as u8)
+    }
+    /// 0 the regular file, 1 the pty, 2 /dev/null
+    fn retarget_kind(&self, fd: u8, kind: u8) {
+        let src = match kind {
+            1 => self.pty_slave.as_raw_fd(),
+            2 => self.null.as_raw_fd(),
+            _ => self.disk.as_raw_fd(),
+        };
         unsafe {
             libc::dup2(src, fd as i32);
         }
@@ -355,6 +393,13 @@ fn with_stream<R>(fds: &Fds, sk: Sk, f: &mut dyn FnMut(&mut dyn ErasedRaw) -> R)
         Sk::Stderr => f(&mut Holder(Some(std::io::stderr()))),
         Sk::StdoutLock => f(&mut Holder(Some(std::io::stdout().lock()))),
         Sk::StderrLock => f(&mut Holder(Some(std::io::stderr().lock()))),
+        Sk::NullFile => f(&mut Holder(Some(fds.null.try_clone().expect("dup")))),
+        Sk::MutNullFile => {
+            let mut file = fds.null.try_clone().expect("dup");
+            f(&mut Holder(Some(&mut file)))
+        }
+        Sk::BoxNullFile => f(&mut Holder(Some(Box::new(fds.null.try_clone().expect("dup"))))),
+        Sk::PipeFile => f(&mut Holder(Some(fds.pipe_w.try_clone().expect("dup")))),
     }
 }
 
@@ -419,8 +464,8 @@ impl World<'_> {
             "global={:?} {} fd1={} fd2={}",
             choice_of(self.m.global),
             vars.join(" "),
-            if self.m.fd_tty[0] { "pty" } else { "file" },
-            if self.m.fd_tty[1] { "pty" } else { "file" }
+            ["file", "pty", "/dev/null"][self.m.fd_kind[0] as usize % 3],
+            ["file", "pty", "/dev/null"][self.m.fd_kind[1] as usize % 3]
         )
     }
 
@@ -500,7 +545,14 @@ impl World<'_> {
             EOp::Retarget(fd, tty) => {
                 self.fds.retarget(*fd, *tty);
                 self.m.fd_tty[(*fd - 1) as usize] = *tty;
+                self.m.fd_kind[(*fd - 1) as usize] = *tty as u8;
                 self.probe("op_retarget_fd");
+            }
+            EOp::RetargetNull(fd) => {
+                self.fds.retarget_kind(*fd, 2);
+                self.m.fd_tty[(*fd - 1) as usize] = false;
+                self.m.fd_kind[(*fd - 1) as usize] = 2;
+                self.probe("op_retarget_fd_to_dev_null");
             }
             _ => {}
         }
@@ -510,7 +562,7 @@ impl World<'_> {
     fn step(&mut self, op: &EOp) -> Result<(), EViolation> {
         self.hash.str(&format!("{op:?}"));
         match op {
-            EOp::Set(..) | EOp::Unset(..) | EOp::Global(..) | EOp::Clap(..) | EOp::Retarget(..) => {
+            EOp::Set(..) | EOp::Unset(..) | EOp::Global(..) | EOp::Clap(..) | EOp::Retarget(..) | EOp::RetargetNull(..) => {
                 self.change(op)?;
                 let w = self.world_str();
                 self.note(format!("{op:?}  => world: {w}"));
@@ -799,7 +851,7 @@ impl World<'_> {
                 let _ = std::io::stdout().flush();
                 let _ = std::io::stderr().flush();
                 // restore the descriptor to what the model says it is
-                fds.retarget(fd, self.m.fd_tty[(fd - 1) as usize]);
+                fds.retarget_kind(fd, self.m.fd_kind[(fd - 1) as usize]);
                 self.probe(if lock_at.is_some() { "probe_std_handle_write_with_lock" } else { "probe_std_handle_write" });
                 self.hash.bytes(&got);
                 self.note(format!(
@@ -999,7 +1051,13 @@ fn gen_change(rng: &mut Rng) -> EOp {
             3 => Some("never".into()),
             _ => Some("sometimes".into()),
         }),
-        _ => EOp::Retarget(1 + rng.below(2) as u8, rng.chance(1, 2)),
+        _ => {
+            if rng.chance(1, 4) {
+                EOp::RetargetNull(1 + rng.below(2) as u8)
+            } else {
+                EOp::Retarget(1 + rng.below(2) as u8, rng.chance(1, 2))
+            }
+        }
     }
 }
 
@@ -1050,6 +1108,7 @@ fn op_json(op: &EOp) -> Value {
         EOp::Global(c) => json!({"op": "write_global", "choice": format!("{:?}", choice_of(*c))}),
         EOp::Clap(v) => json!({"op": "clap_flag", "value": v}),
         EOp::Retarget(fd, tty) => json!({"op": "retarget_fd", "fd": fd, "to": if *tty { "pty" } else { "file" }}),
+        EOp::RetargetNull(fd) => json!({"op": "retarget_fd", "fd": fd, "to": "/dev/null"}),
         EOp::Choice(s) => json!({"op": "probe_choice", "stream": sk_name(*s)}),
         EOp::AutoCurrent(s) => json!({"op": "probe_auto_current", "stream": sk_name(*s)}),
         EOp::NewAuto(s) => json!({"op": "probe_new_auto", "stream": sk_name(*s)}),
@@ -1080,6 +1139,7 @@ fn op_from(v: &Value) -> Result<EOp, String> {
         "unsetenv" => EOp::Unset(var()?),
         "write_global" => EOp::Global(choice(s("choice")?)?),
         "clap_flag" => EOp::Clap(v.get("value").and_then(|x| x.as_str()).map(|x| x.to_string())),
+        "retarget_fd" if v.get("to").and_then(|x| x.as_str()) == Some("/dev/null") => EOp::RetargetNull(v.get("fd").and_then(|x| x.as_u64()).unwrap_or(1) as u8),
         "retarget_fd" => EOp::Retarget(v.get("fd").and_then(|x| x.as_u64()).unwrap_or(1) as u8, s("to")? == "pty"),
         "probe_choice" => EOp::Choice(sk()?),
         "probe_auto_current" => EOp::AutoCurrent(sk()?),
@@ -1190,12 +1250,18 @@ fn sweep(child: &mut Child, seed: u64) -> (u64, Option<(Vec<EOp>, EViolation)>) 
             });
         }
         // every stream kind that is a terminal / is not, per the cell's stream dimension
-        ops.push(EOp::Retarget(1, tty));
-        ops.push(EOp::Retarget(2, tty));
+        if !tty && cell % 3 == 0 {
+            // "not a terminal" has more than one face: /dev/null is a character device
+            ops.push(EOp::RetargetNull(1));
+            ops.push(EOp::RetargetNull(2));
+        } else {
+            ops.push(EOp::Retarget(1, tty));
+            ops.push(EOp::Retarget(2, tty));
+        }
         let kinds: &[Sk] = if tty {
             &[Sk::PtyFile, Sk::MutPtyFile, Sk::BoxPtyFile, Sk::BoxStdout, Sk::BoxStderr, Sk::Stdout, Sk::Stderr, Sk::StdoutLock, Sk::StderrLock]
         } else {
-            &[Sk::TmpFile, Sk::MutTmpFile, Sk::BoxTmpFile, Sk::BoxStdout, Sk::BoxStderr, Sk::Vec, Sk::BoxDyn, Sk::BoxDynSend, Sk::BoxDynSendSync, Sk::Stdout, Sk::Stderr, Sk::StdoutLock, Sk::StderrLock]
+            &[Sk::TmpFile, Sk::MutTmpFile, Sk::BoxTmpFile, Sk::BoxStdout, Sk::BoxStderr, Sk::Vec, Sk::BoxDyn, Sk::BoxDynSend, Sk::BoxDynSendSync, Sk::Stdout, Sk::Stderr, Sk::StdoutLock, Sk::StderrLock, Sk::NullFile, Sk::MutNullFile, Sk::BoxNullFile, Sk::PipeFile]
         };
         for k in kinds {
             ops.push(EOp::Choice(*k));
@@ -1222,7 +1288,7 @@ fn sweep(child: &mut Child, seed: u64) -> (u64, Option<(Vec<EOp>, EViolation)>) 
                 }
                 ops.push(EOp::Retarget(1, tty));
                 ops.push(EOp::Retarget(2, tty));
-                let kinds: &[Sk] = if tty { &[Sk::PtyFile, Sk::BoxPtyFile, Sk::Stdout, Sk::StderrLock] } else { &[Sk::TmpFile, Sk::Vec, Sk::BoxDyn, Sk::Stderr, Sk::StdoutLock] };
+                let kinds: &[Sk] = if tty { &[Sk::PtyFile, Sk::BoxPtyFile, Sk::Stdout, Sk::StderrLock] } else { &[Sk::TmpFile, Sk::Vec, Sk::BoxDyn, Sk::Stderr, Sk::StdoutLock, Sk::NullFile, Sk::PipeFile] };
                 for k in kinds {
                     ops.push(EOp::Choice(*k));
                 }
